@@ -1,6 +1,9 @@
 use std::{marker::PhantomData, sync::Arc};
 
+#[cfg(not(anydb_verif))]
 use parking_lot::{RwLock, RwLockReadGuard};
+#[cfg(anydb_verif)]
+use rawdb::verif::locks::{RwLock, RwLockReadGuard};
 use rawdb::{Reader, Region};
 
 use crate::{AnyStoredVec, Pages, VecIndex, VecValue, unlikely};
